@@ -606,6 +606,8 @@ def run(chk, tier, only_rule=None):
     check_ubjson(chk, tier)
     check_bson(chk, tier)
     check_bson_size(chk, tier)
+    from . import c10
+    c10.r10_7(chk, tier)     # a closer that does not give the depth back makes a flat, valid document hit the nesting limit
     from . import c02
     core = F.load(['core'], tier); chk.units.append('core')
     c02.r02_7(chk, core, rid='R07.utf8')
